@@ -33,6 +33,10 @@ class MPUFileSink:
         self._dst = dst
         self._parts_dir = parts_dir
         self._limits = limits
+        if not (
+            self.min_write_sz < self.max_write_sz and self.min_part < self.max_part
+        ):
+            raise ValueError(f"Inconsistent limits: {limits}")
 
     @property
     def min_write_sz(self) -> int:
